@@ -134,7 +134,22 @@ func execPacked(t []string) string {
 	case "pack":
 		return "ok " + lib.Hex(verifx.Pack(nil, in))
 	case "unpack", "strict":
-		return okHex(verifx.Unpack(nil, in))
+		// decode into a dirty buffer with spare capacity after a prefix: the result
+		// must be prefix ++ decoded bytes whatever the buffer held before
+		h := 0
+		for _, c := range in {
+			h = h*31 + int(c)
+		}
+		pre := (h & 0x7fffffff) % 3 * 5
+		dirty := bytes.Repeat([]byte{0xaa}, pre+((h>>3)&0x7fffffff)%4096)
+		out, err := verifx.Unpack(dirty[:pre], in)
+		if err == nil && (len(out) < pre || !bytes.Equal(out[:pre], bytes.Repeat([]byte{0xaa}, pre))) {
+			return "mismatch-prefix"
+		}
+		if err != nil {
+			return "err"
+		}
+		return okHex(out[pre:], nil)
 	case "stream", "strictstream":
 		return streamWords(in, parseNats(t[2]))
 	case "streamread":
@@ -212,6 +227,7 @@ func genPayload(r *lib.Rng, maxSegs int, big bool) []byte {
 		case 0: // zero words
 			out = append(out, make([]byte, 8*n)...)
 		case 1: // dense words: no zero or exactly one zero byte
+			twoZeros := r.Chance(1, 4) // per run, so that literal runs beyond 255 words occur
 			for i := 0; i < n; i++ {
 				w := r.Bytes(8)
 				for j := range w {
@@ -223,7 +239,7 @@ func genPayload(r *lib.Rng, maxSegs int, big bool) []byte {
 				case 0:
 					w[r.Intn(8)] = 0
 				case 1:
-					if r.Chance(1, 8) { // two zeros: ends a literal run
+					if twoZeros && r.Chance(1, 8) { // two zeros: ends a literal run
 						w[0], w[7] = 0, 0
 					}
 				}
